@@ -377,6 +377,8 @@ def run_case(job):
             if case["delete"] and [f for f in left if not f.endswith(".tmp")]:
                 return f"partial files left behind: {left}", None
         return None, None
+    except Exception as ex:          # noqa - raised while the restarted run's results / files were being examined: a verdict
+        return f"the outcome of the restarted simulation cannot be examined: {type(ex).__name__}: {ex}", None
     finally:
         os.chdir(cwd)
         shutil.rmtree(wd, ignore_errors=True)
